@@ -176,12 +176,12 @@ def streams(seed, tier):
     out.append(Stream("single-steps-both-profiles", "run", "run.check", both,
                       "one step of each of the %d deterministic instructions on %d random whole states, each state run in the debug AND in the release build" % (len(sweep), per)))
     # (2) node ids under real concurrency
-    idc = [[16, 10000, 0], [16, 100000, 0], [16, 10000, 1], [1, 1000, 0], [2, 100000, 1], [8, 20000, 1]]
+    idc = [[16, 10000, 0], [16, 100000, 0], [16, 10000, 1], [1, 1000, 0], [2, 100000, 1], [8, 20000, 1], [1, 300, 2], [8, 3000, 2], [16, 1000, 2]]
     if tier != "quick":
         idc += [[16, 1000000, 0], [64, 10000, 0], [64, 10000, 1], [16, 100000, 1]]
     cases = [sx_str([prof] + c) for c in idc for prof in (0, 1)]
     out.append(Stream("node-ids-threads", "thr.ids", "thr.ids.check", cases,
-                      "T threads x K node creations (Graph::add_node and GRAPH.NODE*ADD), T x K up to 1.6e6 (thorough 1.6e7): ids pairwise distinct, "
+                      "T threads x K node creations (Graph::add_node, GRAPH.NODE*ADD, and add_node interleaved with complete unrelated runs that create nodes themselves), T x K up to 1.6e6 (thorough 1.6e7): ids pairwise distinct, "
                       "each thread's ids increasing"))
     # (3) the pushr binary against the library, programs that terminate in the model
     ncli = {"quick": 40, "thorough": 1200, "search": 150}[tier]
